@@ -757,6 +757,14 @@ def unary_record(I, entry, t):
         m.op(entry, x)
         rec["model_diff"] = [(a, str(b), str(c)) for a, b, c in m.diff()]
         rec["model_touched"] = len(m.M)
+    if entry == "remove_subtree" and st.nodes[x].live0 and t.kind == "return":
+        # a path that finishes without entering the loop: it must have done the whole job, which is possible only for a leaf (detach, then remove the node itself)
+        rec["pre_first_child"] = view.pre(x, "first_child")
+        m = spec.Model(view)
+        m.op("detach", x)
+        m.op("remove", x)
+        rec["model_diff"] = [(a, str(b), str(c)) for a, b, c in m.diff()]
+        rec["model_touched"] = len(m.M)
     return rec
 
 
